@@ -52,5 +52,5 @@ def task_random(ctx, col, shard, n, max_ops):
 def tasks(ctx):
     t = [(task_table, {})]
     for sh in range(NSHARDS):
-        t.append((task_random, dict(shard=sh, n=ctx.pick(300, 2500), max_ops=ctx.pick(8, 25))))
+        t.append((task_random, dict(shard=sh, n=ctx.pick(900, 2500), max_ops=ctx.pick(8, 25))))
     return t
